@@ -188,6 +188,9 @@ func (c02) Generate(seed uint64, tier string, index int) any {
 					f.BlockLen = 700
 				}
 			}
+			if f.BlockLen >= 32768 && (c02Repetitive(f.Target) || c02Repetitive(f.Basis)) {
+				f.BlockLen = 4096 // see c02Repetitive
+			}
 			f.StrongLen = []int{16, 16, 16, 16, 2, 4, 8, 12, 1, 15}[g.R.Intn(10)]
 			bsz := int64(len(f.Basis.Bytes()))
 			if f.BlockLen < 700 && bsz > 40000 {
@@ -278,8 +281,8 @@ func c02Sender(t *testing.T, sc *C02Scenario, job *Job, res *Result) {
 			res.Invalid = "layout"
 			return
 		}
-		if f.BlockLen >= 65536 && (c02Repetitive(f.Target) || c02Repetitive(f.Basis)) {
-			res.Invalid = "block length of 64 KiB and more over repetitive content: hours of hashing, not this property"
+		if f.BlockLen >= 32768 && (c02Repetitive(f.Target) || c02Repetitive(f.Basis)) {
+			res.Invalid = "block length of 32 KiB and more over repetitive content: hours of hashing, not this property"
 			return
 		}
 		byName[f.Name] = f
